@@ -246,6 +246,9 @@ class EditDistance(SequenceEdit):
             return self.edit_matrix[-1][-1].tighten_bounds()
         # We are still building the matrix
         initial_bounds: Range = self.bounds()
+        if self.edit_matrix is None:
+            # Calculating the bounds of a completed matrix finalizes the edits and frees the matrix
+            return False
         while True:
             first_fringe = self._fringe_row < 0
 
